@@ -75,6 +75,63 @@ def setup():
     _state["orig_sp_hooks"] = bumpver.hooks.sp
     _state["orig_now"] = bumpver.utils.now
     _state["orig_glob"] = pathlib.Path.glob
+    _record_baseline()
+
+
+def _bumpver_modules():
+    return [m for n, m in sorted(sys.modules.items()) if (n == "bumpver" or n.startswith("bumpver.")) and m is not None]
+
+
+def _record_baseline():
+    """Deep copies of every module-level container of bumpver, taken right after import."""
+    import copy
+    base = {}
+    for mod in _bumpver_modules():
+        for attr, val in list(vars(mod).items()):
+            if attr.startswith("__") or not isinstance(val, (dict, list, set)):
+                continue
+            try:
+                base[(mod.__name__, attr)] = copy.deepcopy(val)
+            except Exception:
+                pass
+    _state["baseline"] = base
+
+
+def reset_state():
+    """Called at the start of every run: whatever earlier runs of this worker left inside bumpver's modules (memo caches,
+    mutated module-level tables) is undone, so that a run depends on its seed only and replays in a fresh process.
+    -> number of module-level containers that had to be restored (a state leak of the code under test)."""
+    if not _state.get("ready"):
+        return 0
+    restored = 0
+    for mod in _bumpver_modules():
+        for attr, val in list(vars(mod).items()):
+            clo = getattr(val, "__closure__", None)
+            if clo and callable(val) and hasattr(val, "__wrapped__"):
+                for cell in clo:
+                    try:
+                        content = cell.cell_contents
+                    except ValueError:
+                        continue
+                    if isinstance(content, dict):
+                        content.clear()
+            key = (mod.__name__, attr)
+            base = _state.get("baseline", {}).get(key)
+            if base is not None and isinstance(val, type(base)):
+                try:
+                    same = val == base
+                except Exception:
+                    same = True
+                if not same:
+                    import copy
+                    fresh = copy.deepcopy(base)
+                    val.clear()
+                    if isinstance(val, list):
+                        val.extend(fresh)
+                    else:
+                        val.update(fresh)
+                    restored += 1
+    return restored
 
 
 def scratch_root():
